@@ -192,6 +192,14 @@ func main() {
 			pos := 1 + rng.Intn(len(histOps[i]))
 			histOps[i] = append(histOps[i][:pos], append(ins, histOps[i][pos:]...)...)
 		}
+		if i%3 == 2 {
+			// a keystore with issued keys on both branches leaves the wallet and comes back through export/import: what the
+			// running instance presents right after the import must be what a restart presents
+			ins := []wl.Op{{Kind: "next", N: 3, K: 0}, {Kind: "next", N: 2, Internal: true, K: 0}, {Kind: "unlock", PC: "cur"}, {Kind: "export", PC: "cur", K: 0}, {Kind: "delete", PC: "cur", K: 0},
+				{Kind: "import", PC: "exp", NPC: "cur", X: -1}, {Kind: "restart"}, {Kind: "genpub"}}
+			pos := 1 + rng.Intn(len(histOps[i]))
+			histOps[i] = append(histOps[i][:pos], append(ins, histOps[i][pos:]...)...)
+		}
 		L = len(histOps[i])
 		if run.Thorough() {
 			for _, p := range rng.Perm(L)[:8] {
